@@ -139,12 +139,14 @@ fn history_dev(h: &[FlatEv], start_mode: HandleControl, oracle: Oracle) -> Resul
                             // Pause-Ctrl is *held* must yield PauseBreak even if the decoder
                             // forgot the flag.
                             for (name, out, lid) in [("Keyboard", &ok, 0u8), ("EventDecoder", &oe, ed_layout)] {
-                                let want: Option<DecodedKey> = match mm::expect_output(pre_model, *k, *s) {
-                                    Expect::Nothing => None,
-                                    Expect::Raw(r) => Some(DecodedKey::RawKey(r)),
-                                    Expect::ViaLayout => Some(DecodedKey::Unicode(encode_args(lid, *k, model, mode))),
+                                let via = Some(DecodedKey::Unicode(encode_args(lid, *k, model, mode)));
+                                let (want, alt): (Option<DecodedKey>, Option<Option<DecodedKey>>) = match mm::expect_output(pre_model, *k, *s) {
+                                    Expect::Nothing => (None, None),
+                                    Expect::Raw(r) => (Some(DecodedKey::RawKey(r)), None),
+                                    Expect::ViaLayout => (via, None),
+                                    Expect::RawOrViaLayout(r) => (via, Some(Some(DecodedKey::RawKey(r)))),
                                 };
-                                if *out != want {
+                                if *out != want && Some(out.clone()) != alt {
                                     return Some((
                                         i,
                                         format!("out:{}:state={}:mode={}:layout#{}:event={}({:?}):want={}:got={}", name, mods_str(pre_model), mode_name(mode), lid, state_name(*s), k, describe_out(&want).replace(' ', ""), describe_out(out).replace(' ', "")),
@@ -441,12 +443,14 @@ fn pipeline_dev(ops: &[gen::Op], start_mode: HandleControl, oracle: Oracle) -> R
                     }
                 }
                 Oracle::Output => {
-                    let want: Option<DecodedKey> = match mm::expect_output(pre, e.code, e.state) {
-                        Expect::Nothing => None,
-                        Expect::Raw(r) => Some(DecodedKey::RawKey(r)),
-                        Expect::ViaLayout => Some(DecodedKey::Unicode(encode_args(0, e.code, *model, mode))),
+                    let via = Some(DecodedKey::Unicode(encode_args(0, e.code, *model, mode)));
+                    let (want, alt): (Option<DecodedKey>, Option<Option<DecodedKey>>) = match mm::expect_output(pre, e.code, e.state) {
+                        Expect::Nothing => (None, None),
+                        Expect::Raw(r) => (Some(DecodedKey::RawKey(r)), None),
+                        Expect::ViaLayout => (via, None),
+                        Expect::RawOrViaLayout(r) => (via, Some(Some(DecodedKey::RawKey(r)))),
                     };
-                    if out != want {
+                    if out != want && Some(out.clone()) != alt {
                         return Some((i, format!("out:pipeline:state={}:mode={}:event={}({:?}):want={}:got={}", mods_str(pre), mode_name(mode), state_name(e.state), e.code, describe_out(&want).replace(' ', ""), describe_out(&out).replace(' ', "")), format!("in modifier state {} (mode {}) the decoded event {} {:?} returns {}; required: {}", mods_str(pre), mode_name(mode), state_name(e.state), e.code, describe_out(&out), describe_out(&want))));
                     }
                 }
